@@ -70,7 +70,9 @@ func gateRequest(c map[string]interface{}) (*http.Request, bool) {
 	ct := map[string]string{"unary": "application/x-protobuf", "unary-charset": "application/x-protobuf; charset=utf-8",
 		"unary-upper": "APPLICATION/X-PROTOBUF", "json": "application/json", "json-charset": "application/json;charset=UTF-8",
 		"stream": "application/x-httpgrpc-proto+v1", "stream-param": "application/x-httpgrpc-proto+v1; x=y",
-		"text": "text/plain", "none": "", "garbage": ";;;=garbage/"}[c["ctype"].(string)]
+		"text": "text/plain", "none": "", "garbage": ";;;=garbage/",
+		"unary-longer": "application/x-protobuf-v2", "json-longer": "application/jsonp; charset=utf-8",
+		"stream-longer": "application/x-httpgrpc-proto+v10", "unary-prefix": "application/x-proto"}[c["ctype"].(string)]
 	isJSON := strings.HasPrefix(c["ctype"].(string), "json")
 	pb, _ := proto.Marshal(gateMsg())
 	var body []byte
